@@ -74,6 +74,8 @@ type c14dhtCase struct {
 	ctor       string
 	ops        []string
 	closeAt    int
+	closeOp1   int // >0: Close follows the start of operation closeOp1-1 by closeDelay steps
+	closeDelay int
 	conc2      bool
 	strat      int
 }
@@ -146,7 +148,7 @@ func c14dhtRun(t *testing.T, r *vfRand, c *c14dhtCase, lc *lkCase, w *wWorld, tr
 		}()
 		d, err = New(h, opts...)
 	}()
-	plan := &zzc14.Plan{Gate: gate, UseWait: true, CloseAt: c.closeAt, Concurrent2: c.conc2, MaxSteps: 3000, Idle: 10 * time.Second, MaxIdle: 20,
+	plan := &zzc14.Plan{Gate: gate, UseWait: true, CloseAt: c.closeAt, CloseOp1: c.closeOp1, CloseDelay: c.closeDelay, Concurrent2: c.conc2, MaxSteps: 3000, Idle: 10 * time.Second, MaxIdle: 20,
 		Final: func() { _ = h.Close() }}
 	if tr.Has("TCtorPanic") {
 		_ = h.Close()
@@ -324,6 +326,9 @@ func c14dhtGen(r *vfRand, i int) *c14dhtCase {
 		c.closeAt = r.Intn(4 + 8*len(c.ops))
 	}
 	c.conc2 = r.Chance(30)
+	if len(c.ops) > 0 && r.Chance(55) {
+		c.closeOp1, c.closeDelay = 1+r.Intn(len(c.ops)), 1+r.Intn(4)
+	}
 	return c
 }
 
@@ -333,7 +338,7 @@ func TestVerifC14Dht(t *testing.T) {
 	zzc14.StartClock()
 	seed := vfSeed()
 	n := vfEnvInt("VERIF_N", 100)
-	only := vfOnly()
+	only := zzc14.Only(0, vfOnly())
 	cs := vfNewCases("Run_C14", 50)
 	curDesc := map[string]any{}
 	zzc14.OnHang(func(label, stacks string) {
@@ -344,14 +349,14 @@ func TestVerifC14Dht(t *testing.T) {
 	root := vfNewRand(seed)
 	for i := 0; i < n; i++ {
 		r := root.Fork()
-		if only >= 0 && i != only {
+		if only != -1 && i != only {
 			continue
 		}
 		lc, w := wGen(r, i)
 		c := c14dhtGen(r, i)
-		desc := map[string]any{"case": i, "seed": seed, "pkg": ".", "comp": "dht", "mode": int(c.mode), "autoRefresh": c.autoRef, "fixLowPeers": c.fixLow,
+		desc := map[string]any{"case": zzc14.CaseID(0, i), "seed": seed, "pkg": ".", "comp": "dht", "mode": int(c.mode), "autoRefresh": c.autoRef, "fixLowPeers": c.fixLow,
 			"noValues": c.noValues, "noProviders": c.noProvs, "optimistic": c.optimistic, "bootstrap": c.bootstrap, "ctor": c.ctor, "ops": c.ops,
-			"closeAt": c.closeAt, "concurrent2": c.conc2, "strategy": c.strat, "npeers": len(w.peers), "K": lc.k}
+			"closeAt": c.closeAt, "closeOp1": c.closeOp1, "closeDelay": c.closeDelay, "concurrent2": c.conc2, "strategy": c.strat, "npeers": len(w.peers), "K": lc.k}
 		curDesc = desc
 		tr := &zzc14.Trace{}
 		var plan *zzc14.Plan
